@@ -100,6 +100,7 @@ def run_case(case):
     step = {'recs': [], 'gap': None}
     tot = {'dH': 0.0, 'P': 0.0, 'max_exchange': 0.0, 'n_exch': 0}
     tally = {}
+    gap_tally = {}
 
     def on_asm(rec):
         step['recs'].append(rec)
@@ -217,6 +218,7 @@ def run_case(case):
                               'Core.ebal increment != recomputed gap-side '
                               'heat', key)
                     q_to_gap_total += q_gap
+                    gap_tally[ai] = gap_tally.get(ai, 0.0) + q_gap
                     tot['max_exchange'] = max(tot['max_exchange'],
                                               abs(q_gap))
                     if abs(q_gap) > 1.0:
@@ -308,6 +310,28 @@ def run_case(case):
                               a.flow_rate, 2e-4, 'table flow rate', key)
             except Exception as e:  # table parse problems are not verdicts
                 res.tag('table_parse_failed:' + type(e).__name__)
+            # inter-assembly heat transfer table: the six face values of an
+            # assembly add up to (minus) the heat it gave to the gap
+            if not adiabatic and core.model == 'flow':
+                try:
+                    with drive.quiet():
+                        txt = dassh.table.InterasmEnergyXferTable().generate(r)
+                    for ln in txt.splitlines():
+                        if not re.match(r'^\s*\d+\s', ln):
+                            continue
+                        i = int(ln.split()[0]) - 1
+                        vals = [float(x) for x in re.findall(
+                            r'(-?\d\.\d{3}E[+-]\d+) \(', ln)]
+                        if len(vals) != 6 or i not in gap_tally:
+                            continue
+                        tol = 6 * 6e-4 * max(abs(v) for v in vals) + 1e-6
+                        res.check('T2_interasm_table_row',
+                                  abs(sum(vals) + gap_tally[i]) <= tol,
+                                  'inter-assembly table row %d sums to %.5e, '
+                                  'heat given to the gap tallied as %.5e'
+                                  % (i + 1, sum(vals), gap_tally[i]), key)
+                except Exception as e:
+                    res.tag('xfer_table_parse_failed:' + type(e).__name__)
             for k in ('gap',):
                 res.tag('%s=%s' % (k, feats[k]))
             res.tag('n_asm=%d' % feats['n_asm'])
